@@ -41,10 +41,10 @@ def gen_case(rng, tier, idx):
         cfg = dict(heur=h, eps=rng.choice((1e-2, 1e-3)), rao=True, seed=rng.choice((0, 1, 9)),
                    reuse=None, alias='shared')
     else:
-        spec = gen_mdp_spec(rng, proper=True, discounts=(0.5, 0.9, 0.95, 1.0, 1.0), uniform_actions=rng.random() < 0.3,
-                            rewards=rng.choice((None, None, (-2.0, -1.0, -1.0, 0.0, 1.0, 0.5), (-1.0, -2.0, -1.0, -3.0), (0.0, -1.0))))
-        cfg = dict(heur=gen_heuristic(rng), eps=rng.choice((1e-2, 1e-3, 1e-5)), rao=rng.random() < 0.6, seed=rng.choice((0, 1, 9)),
-                   reuse=rng.randrange(1000) if rng.random() < 0.2 else None, alias=rng.choice(('fresh', 'fresh', 'cached', 'shared')))
+        spec = gen_mdp_spec(rng, proper=True, discounts=(0.999,) if rng.random() < 0.02 else (0.5, 0.9, 0.95, 1.0, 1.0), uniform_actions=rng.random() < 0.3,
+                            rewards=rng.choice((None, None, (-2.0, -1.0, -1.0, 0.0, 1.0, 0.5), (-1.0, -2.0, -1.0, -3.0), (0.0, -1.0), (0.0,))))
+        cfg = dict(heur=gen_heuristic(rng), eps=rng.choice((1e-2, 1e-3, 1e-5)), rao=rng.random() < 0.6, seed=rng.choice((0, 1, 9, None)),
+                   reuse=rng.randrange(1000) if rng.random() < 0.2 else None, alias=rng.choice(('fresh', 'fresh', 'cached', 'shared', 'tuple')), cap_exact=rng.random() < 0.25)
     plain = idx % 4 == 0
     sched = gen_sched(rng, ('P',) if plain else ('P', 'U', 'R', 'R'), budget_choices=(20, 100, 400, 2000), cap=300000)
     return dict(spec=spec, cfg=cfg, sched=sched)
@@ -56,7 +56,7 @@ def execute(case, script=None):
     ctx = RunCtx(PROP, view)
     ctx.W = game_W(view)
     ctx.declare_probes('absorbing_initial_state', 'absorbing_initial_labelled_by_entry', 'monotone_heuristic', 'non_monotone_heuristic',
-                       'nonzero_heuristic_at_absorbing', 'unproductive_trial', 'trial_events', 'timestep_events', 'undiscounted', 'planner_reused')
+                       'nonzero_heuristic_at_absorbing', 'unproductive_trial', 'trial_events', 'timestep_events', 'undiscounted', 'planner_reused', 'trial_cap_exact')
     sched = make_scheduler(case, script, ctx)
     try:
         return _execute(lr, view, case['cfg'], ctx, sched)
@@ -83,158 +83,174 @@ def _execute(lr, view, cfg, ctx, sched):
     v0 = sum(p * Vs[s] for s, p in view.init.items())
     nonabs = [s for s in range(view.N) if s not in view.absorbing]
     trial_bound = view.N + sum(max(0.0, htab[s] - Vs[s]) for s in nonabs) / eps + 1
-    st = dict(prevV={}, solved_val={}, trials=0, productive=0, t=0, entered_abs=set(), main=True)
+    def one_run(the_sched, iterations_cap, tag, allow_reuse):
+        st = dict(prevV={}, solved_val={}, trials=0, productive=0, t=0, entered_abs=set(), main=True)
 
-    def tolv(x):
-        return 1e-9 * (1 + abs(x))
+        def tolv(x):
+            return 1e-9 * (1 + abs(x))
 
-    def stored(V):
-        out = {}
-        for k, v in dict.items(V):
-            out[sid[k]] = float(v)
-        return out
+        def stored(V):
+            out = {}
+            for k, v in dict.items(V):
+                out[sid[k]] = float(v)
+            return out
 
-    def valof(Vd, s):
-        if s in view.absorbing:
-            return 0.0
-        return Vd.get(s, htab[s])
+        def valof(Vd, s):
+            if s in view.absorbing:
+                return 0.0
+            return Vd.get(s, htab[s])
 
-    def invariants(lv, where):
+        def invariants(lv, where):
+            try:
+                res = lv['self'].res
+                Vd = stored(res.V)
+                solved = {sid[k] for k, v in dict.items(res.solved) if v}
+            except Exception:
+                return None, None
+            for s, v in Vd.items():
+                if s in view.absorbing:
+                    continue
+                ctx.check(v >= Vs[s] - tolv(Vs[s]), 'upper-bound', lambda: f"{where}: V[{s}]={v!r} fell below the optimal value {Vs[s]!r}")
+                if mono:
+                    pv = st['prevV'].get(s, htab[s])
+                    ctx.check(v <= pv + tolv(pv), 'monotone-decrease', lambda: f"{where}: V[{s}] rose from {pv!r} to {v!r} under a monotone heuristic")
+                if s in st['solved_val']:
+                    ctx.check(abs(v - st['solved_val'][s]) <= tolv(v), 'solved-stable', lambda: f"{where}: V[{s}] changed from {st['solved_val'][s]!r} to {v!r} after the state was labelled solved")
+            for s in solved:
+                if s not in st['solved_val'] and s not in view.absorbing:
+                    st['solved_val'][s] = valof(Vd, s)
+            st['prevV'] = Vd
+            return Vd, solved
+
+        class L(lr.LRTDPEventListener):
+            def end_of_lrtdp_timestep(self, lv):
+                if not st['main']:
+                    return
+                ctx.probe('timestep_events')
+                ctx.steps += 1
+                st['t'] += 1
+                Vd, solved = invariants(lv, f"timestep {st['t']}")
+                if Vd is None:
+                    return
+                try:
+                    vis = [sid[x] for x in lv['visited']]
+                    ns = sid[lv['s']]
+                except Exception:
+                    return
+                # (a trial that starts in a not-yet-labelled absorbing state steps through its self-loop: absorbing states are worth 0
+                # under every action, so there is no greedy choice to check there)
+                if len(vis) >= 2 and vis[-1] == ns and ctx.last and ctx.last[0] == 'succ' and ctx.last[1] == vis[-2] and vis[-2] not in view.absorbing:
+                    prev, a = vis[-2], ctx.last[2]
+                    ctx.check(view.T[prev, a].get(ns, 0) > 0, 'trial-step', lambda: f"timestep {st['t']}: sampled successor {ns} has probability 0 under ({prev},{a})")
+                    qs = {b: sum(p * (view.R[prev, b, t] + g * valof(Vd, t)) for t, p in view.T[prev, b].items()) for b in view.A[prev]}
+                    ctx.check(qs[a] >= max(qs.values()) - 1e-9 * (1 + abs(qs[a])), 'trial-step',
+                              lambda: f"timestep {st['t']}: trial followed action {a} at {prev} (Q={qs[a]!r}) which is not greedy ({qs})")
+                if ns in view.absorbing:
+                    st['entered_abs'].add(ns)
+
+            def end_of_lrtdp_trial(self, lv):
+                if not st['main']:
+                    return
+                ctx.probe('trial_events')
+                st['trials'] += 1
+                Vd, solved = invariants(lv, f"end of trial {st['trials']}")
+                try:
+                    vis = [sid[x] for x in lv['visited']]
+                except Exception:
+                    return
+                if len(vis) <= 1:
+                    ctx.probe('unproductive_trial')
+                else:
+                    st['productive'] += 1
+                    if mono and eps >= 1e-3:
+                        ctx.check(st['productive'] <= trial_bound, 'trial-bound',
+                                  lambda: f"{st['productive']} trials started at unsolved states; the Bonet-Geffner bound |S| + sum(h-V*)/eps is {trial_bound:.1f}")
+
+        proxy = RandomProxy(the_sched)
+        with patched_random([lr], proxy):
+            try:
+                planner = lr.LRTDP(heuristic=lambda s: htab[sid[s]], seed=cfg['seed'], bellman_error_margin=eps, randomize_action_order=cfg['rao'],
+                                   iterations=iterations_cap, event_listener_class=L)
+                sib = sibling_mdp_spec(view.spec, cfg['reuse']) if (allow_reuse and cfg.get('reuse') is not None) else None
+                if sib is not None:
+                    # fault F5: the same planner object is first used on a sibling problem (same keys, one more absorbing state)
+                    sched.fire('F5_object_reuse')
+                    ctx.probe('planner_reused')
+                    st['main'] = False
+                    sview = MDPView(sib)
+                    W0, ctx.W = ctx.W, game_W(sview)
+                    planner.plan_on(make_mdp(sview, ctx, alias=cfg.get('alias', 'fresh')))
+                    ctx.W = W0
+                    st['main'] = True
+                st['log0'] = len(the_sched.log)
+                r = planner.plan_on(mdp)
+            except (Violation, Inconclusive):
+                raise
+            except Exception as e:
+                raise Violation('exception', f"{tag}LRTDP.plan_on raised {type(e).__name__}: {e}", dict(key=f"exception/{type(e).__name__}"))
         try:
-            res = lv['self'].res
-            Vd = stored(res.V)
-            solved = {sid[k] for k, v in dict.items(res.solved) if v}
-        except Exception:
-            return None, None
+            Vd = stored(r.V)
+            solved = {sid[k] for k, v in dict.items(r.solved) if v}
+            Qd = {sid[s]: {aid[a]: float(v) for a, v in av.items()} for s, av in r.Q.items()}
+        except (KeyError, TypeError, AttributeError) as e:
+            raise Violation('result-shape', f"result malformed: {type(e).__name__}: {e}")
+        for s in view.init:
+            ctx.check(s in solved, 'all-initial-solved', lambda: f"{tag}initial state {s} is not labelled solved at termination")
         for s, v in Vd.items():
             if s in view.absorbing:
-                continue
-            ctx.check(v >= Vs[s] - tolv(Vs[s]), 'upper-bound', lambda: f"{where}: V[{s}]={v!r} fell below the optimal value {Vs[s]!r}")
-            if mono:
-                pv = st['prevV'].get(s, htab[s])
-                ctx.check(v <= pv + tolv(pv), 'monotone-decrease', lambda: f"{where}: V[{s}] rose from {pv!r} to {v!r} under a monotone heuristic")
-            if s in st['solved_val']:
-                ctx.check(abs(v - st['solved_val'][s]) <= tolv(v), 'solved-stable', lambda: f"{where}: V[{s}] changed from {st['solved_val'][s]!r} to {v!r} after the state was labelled solved")
-        for s in solved:
-            if s not in st['solved_val'] and s not in view.absorbing:
-                st['solved_val'][s] = valof(Vd, s)
-        st['prevV'] = Vd
-        return Vd, solved
-
-    class L(lr.LRTDPEventListener):
-        def end_of_lrtdp_timestep(self, lv):
-            if not st['main']:
-                return
-            ctx.probe('timestep_events')
-            ctx.steps += 1
-            st['t'] += 1
-            Vd, solved = invariants(lv, f"timestep {st['t']}")
-            if Vd is None:
-                return
-            try:
-                vis = [sid[x] for x in lv['visited']]
-                ns = sid[lv['s']]
-            except Exception:
-                return
-            # (a trial that starts in a not-yet-labelled absorbing state steps through its self-loop: absorbing states are worth 0
-            # under every action, so there is no greedy choice to check there)
-            if len(vis) >= 2 and vis[-1] == ns and ctx.last and ctx.last[0] == 'succ' and ctx.last[1] == vis[-2] and vis[-2] not in view.absorbing:
-                prev, a = vis[-2], ctx.last[2]
-                ctx.check(view.T[prev, a].get(ns, 0) > 0, 'trial-step', lambda: f"timestep {st['t']}: sampled successor {ns} has probability 0 under ({prev},{a})")
-                qs = {b: sum(p * (view.R[prev, b, t] + g * valof(Vd, t)) for t, p in view.T[prev, b].items()) for b in view.A[prev]}
-                ctx.check(qs[a] >= max(qs.values()) - 1e-9 * (1 + abs(qs[a])), 'trial-step',
-                          lambda: f"timestep {st['t']}: trial followed action {a} at {prev} (Q={qs[a]!r}) which is not greedy ({qs})")
-            if ns in view.absorbing:
-                st['entered_abs'].add(ns)
-
-        def end_of_lrtdp_trial(self, lv):
-            if not st['main']:
-                return
-            ctx.probe('trial_events')
-            st['trials'] += 1
-            Vd, solved = invariants(lv, f"end of trial {st['trials']}")
-            try:
-                vis = [sid[x] for x in lv['visited']]
-            except Exception:
-                return
-            if len(vis) <= 1:
-                ctx.probe('unproductive_trial')
+                ctx.check(v == 0.0, 'absorbing-zero', lambda: f"reported V[{s}]={v!r} for an absorbing state (heuristic says {htab[s]!r})", key='absorbing-zero/V')
             else:
-                st['productive'] += 1
-                if mono and eps >= 1e-3:
-                    ctx.check(st['productive'] <= trial_bound, 'trial-bound',
-                              lambda: f"{st['productive']} trials started at unsolved states; the Bonet-Geffner bound |S| + sum(h-V*)/eps is {trial_bound:.1f}")
+                ctx.check(v >= Vs[s] - tolv(Vs[s]), 'upper-bound', lambda: f"final V[{s}]={v!r} below optimal {Vs[s]!r}")
+        for s, av in Qd.items():
+            if s in view.absorbing:
+                ctx.check(all(v == 0.0 for v in av.values()), 'absorbing-zero', lambda: f"reported Q[{s}]={av} for an absorbing state", key='absorbing-zero/Q')
+        # initial value: absorbing initial mass counts as 0
+        iv = float(r.initial_value)
+        exp_iv = sum(p * (0.0 if s in view.absorbing else Vd.get(s, htab[s])) for s, p in view.init.items())
+        if abs_init and any(s in st['entered_abs'] for s in abs_init):
+            ctx.probe('absorbing_initial_labelled_by_entry')
+        ctx.check(abs(iv - exp_iv) <= 1e-9 * (1 + abs(exp_iv)), 'initial-value',
+                  lambda: f"initial_value {iv!r} != sum of p*V over the initial distribution with absorbing states worth 0 ({exp_iv!r}); "
+                  f"absorbing initial states {abs_init}, heuristic there {[htab[s] for s in abs_init]}",
+                  key='initial-value' + ('/absorbing-initial-state' if abs_init else ''))
+        # returned greedy policy
+        pol = {}
+        for s in nonabs:
+            try:
+                d = {aid[a]: float(p) for a, p in r.policy.action_dist(sk[s]).items() if p > 0}
+            except Exception as e:
+                raise Violation('policy', f"policy undefined at {s}: {type(e).__name__}: {e}")
+            ctx.check(d and all(a in view.A[s] for a in d) and abs(sum(d.values()) - 1) < 1e-9, 'policy', lambda: f"policy at {s} is {d}, available {view.A[s]}")
+            pol[s] = d
+        Vp, Np = evaluate(view, pol)
+        for s in view.init:
+            if s in view.absorbing:
+                continue
+            gap = Vd.get(s, htab[s]) - Vs[s]
+            ctx.check(gap >= -tolv(Vs[s]), 'upper-bound', lambda: f"V[{s}] - V*[{s}] = {gap!r} < 0 at an initial state")
+            ctx.clauses += 0
+            if True:      # every admissible heuristic (the returned policy is the one verified at labelling)
+                ctx.check(gap <= eps * float(Np[s]) + tolv(Vs[s]) + 1e-9, 'eps-bound-value',
+                          lambda: f"{tag}V[{s}] - V*[{s}] = {gap!r} exceeds eps*N = {eps}*{float(Np[s])!r}")
+        if True:
+            vp0 = sum(p * float(Vp[s]) for s, p in view.init.items())
+            n0 = sum(p * float(Np[s]) for s, p in view.init.items())
+            ctx.check(vp0 >= v0 - eps * n0 - 1e-9 * (1 + abs(v0)), 'eps-bound-policy',
+                      lambda: f"{tag}exact return of the returned policy {vp0!r} is more than eps*N = {eps * n0!r} below the optimum {v0!r}")
+        return st
 
-    proxy = RandomProxy(sched)
-    with patched_random([lr], proxy):
-        try:
-            planner = lr.LRTDP(heuristic=lambda s: htab[sid[s]], seed=cfg['seed'], bellman_error_margin=eps, randomize_action_order=cfg['rao'],
-                               iterations=10 ** 7, event_listener_class=L)
-            sib = sibling_mdp_spec(view.spec, cfg['reuse']) if cfg.get('reuse') is not None else None
-            if sib is not None:
-                # fault F5: the same planner object is first used on a sibling problem (same keys, one more absorbing state)
-                sched.fire('F5_object_reuse')
-                ctx.probe('planner_reused')
-                st['main'] = False
-                sview = MDPView(sib)
-                W0, ctx.W = ctx.W, game_W(sview)
-                planner.plan_on(make_mdp(sview, ctx, alias=cfg.get('alias', 'fresh')))
-                ctx.W = W0
-                st['main'] = True
-            r = planner.plan_on(mdp)
-        except (Violation, Inconclusive):
-            raise
-        except Exception as e:
-            raise Violation('exception', f"LRTDP.plan_on raised {type(e).__name__}: {e}", dict(key=f"exception/{type(e).__name__}"))
-    try:
-        Vd = stored(r.V)
-        solved = {sid[k] for k, v in dict.items(r.solved) if v}
-        Qd = {sid[s]: {aid[a]: float(v) for a, v in av.items()} for s, av in r.Q.items()}
-    except (KeyError, TypeError, AttributeError) as e:
-        raise Violation('result-shape', f"result malformed: {type(e).__name__}: {e}")
-    for s in view.init:
-        ctx.check(s in solved, 'all-initial-solved', lambda: f"initial state {s} is not labelled solved at termination")
-    for s, v in Vd.items():
-        if s in view.absorbing:
-            ctx.check(v == 0.0, 'absorbing-zero', lambda: f"reported V[{s}]={v!r} for an absorbing state (heuristic says {htab[s]!r})", key='absorbing-zero/V')
-        else:
-            ctx.check(v >= Vs[s] - tolv(Vs[s]), 'upper-bound', lambda: f"final V[{s}]={v!r} below optimal {Vs[s]!r}")
-    for s, av in Qd.items():
-        if s in view.absorbing:
-            ctx.check(all(v == 0.0 for v in av.values()), 'absorbing-zero', lambda: f"reported Q[{s}]={av} for an absorbing state", key='absorbing-zero/Q')
-    # initial value: absorbing initial mass counts as 0
-    iv = float(r.initial_value)
-    exp_iv = sum(p * (0.0 if s in view.absorbing else Vd.get(s, htab[s])) for s, p in view.init.items())
-    if abs_init and any(s in st['entered_abs'] for s in abs_init):
-        ctx.probe('absorbing_initial_labelled_by_entry')
-    ctx.check(abs(iv - exp_iv) <= 1e-9 * (1 + abs(exp_iv)), 'initial-value',
-              lambda: f"initial_value {iv!r} != sum of p*V over the initial distribution with absorbing states worth 0 ({exp_iv!r}); "
-              f"absorbing initial states {abs_init}, heuristic there {[htab[s] for s in abs_init]}",
-              key='initial-value' + ('/absorbing-initial-state' if abs_init else ''))
-    # returned greedy policy
-    pol = {}
-    for s in nonabs:
-        try:
-            d = {aid[a]: float(p) for a, p in r.policy.action_dist(sk[s]).items() if p > 0}
-        except Exception as e:
-            raise Violation('policy', f"policy undefined at {s}: {type(e).__name__}: {e}")
-        ctx.check(d and all(a in view.A[s] for a in d) and abs(sum(d.values()) - 1) < 1e-9, 'policy', lambda: f"policy at {s} is {d}, available {view.A[s]}")
-        pol[s] = d
-    Vp, Np = evaluate(view, pol)
-    for s in view.init:
-        if s in view.absorbing:
-            continue
-        gap = Vd.get(s, htab[s]) - Vs[s]
-        ctx.check(gap >= -tolv(Vs[s]), 'upper-bound', lambda: f"V[{s}] - V*[{s}] = {gap!r} < 0 at an initial state")
-        ctx.clauses += 0
-        if True:      # every admissible heuristic (the returned policy is the one verified at labelling)
-            ctx.check(gap <= eps * float(Np[s]) + tolv(Vs[s]) + 1e-9, 'eps-bound-value',
-                      lambda: f"V[{s}] - V*[{s}] = {gap!r} exceeds eps*N = {eps}*{float(Np[s])!r}")
-    if True:
-        vp0 = sum(p * float(Vp[s]) for s, p in view.init.items())
-        n0 = sum(p * float(Np[s]) for s, p in view.init.items())
-        ctx.check(vp0 >= v0 - eps * n0 - 1e-9 * (1 + abs(v0)), 'eps-bound-policy',
-                  lambda: f"exact return of the returned policy {vp0!r} is more than eps*N = {eps * n0!r} below the optimum {v0!r}")
+    st1 = one_run(sched, 10 ** 7, '', True)
+    # fault F7: the trial cap placed exactly at the number of trials this schedule needs; the planner runs out of trials
+    # just as the last initial state is labelled, and everything it reports must still satisfy the property
+    T = st1['trials']
+    if cfg.get('cap_exact') and T >= 1:
+        from sim.core import Scheduler
+        seg = [(e[0], e[1]) for e in sched.log[st1.get('log0', 0):]]
+        sub = Scheduler('replay', script=seg, cap=10 ** 6)
+        sub.advisor = ctx.advisor
+        sched.fire('F7_step_limit')
+        ctx.probe('trial_cap_exact')
+        one_run(sub, T, f"with iterations={T}, exactly the {T} trials this schedule needs: ", False)
     return ctx.result()
 
 
